@@ -5,6 +5,7 @@
 #include "SlidingDFT.h"
 
 #include <array>
+#include <cmath>
 #include <complex>
 #include <cstddef>
 
@@ -62,7 +63,11 @@ struct DataCarrierDetect
      */
     void update()
     {
-    	level_ = level_ * 0.8 + 0.2 * (level_1 / level_2);
+    	// 0/0 (digital silence) or x/0 must not enter the running average:
+    	// NaN or Inf would never leave it and would latch the detector.
+    	FloatType ratio = level_1 / level_2;
+    	if (!std::isfinite(ratio)) ratio = 0.0;
+    	level_ = level_ * 0.8 + 0.2 * ratio;
     	level_1 = 0.0;
     	level_2 = 0.0;
         triggered_ = triggered_ ? level_ > ltrigger_ : level_ > htrigger_;
